@@ -65,6 +65,36 @@ CHECKS = {
               "reference length)."),
         assumptions=["reference encoder defines the value's length", "depth counts values entered, leaf included"],
     ),
+    "C09": dict(
+        engine="vrt", level="fault_enumeration", quick_cap=280, thorough_cap=3600,
+        rule=("Runtime level. Seeds = reference encodings of all depth<=1 shapes, their depth-2 wrappers [thorough: all depth<=2 "
+              "shapes] and payload/length-boundary values, per wire protocol {binary, binary-LE, compact}. Faults enumerated "
+              "completely per seed: every truncation length; every annotated length/count/field-id/type position overwritten with "
+              "each of {-1,0,1,rem-1,rem,rem+1,2^31-1,2^31-16,2^24,-2^31} (own integer encoding; compact additionally over-long "
+              "and unterminated varints) resp. 7 field ids resp. 18 type bytes; every single-bit flip (seeds <=12 bytes quick, all "
+              "thorough); plus ALL byte strings of length<=2 and all strings of length 3..4 [5] over a 12-byte alphabet, each read "
+              "as struct/list/map/binary/set/i32. Targets: typed reads (plain and generated-code-like call sequence, all four "
+              "binary/string APIs), skip, async typed read and async skip. Oracle: Ok or Err; no panic, no dead worker, <2 s, bytes "
+              "requested from the allocator <= 64 KiB + 1024 x input length, every strict prefix rejected. distinct_nontrivial = "
+              "distinct (protocol, type, bytes) fault inputs. Generated-code level: see the C09 generated half when built."),
+        assumptions=["the allocator window includes the harness's own Val tree (<= ~100 bytes per input byte), which the budget "
+                     "covers", "async readers are driven with the deliver-everything schedule here; schedules are C12's subject"],
+    ),
+    "C12": dict(
+        engine="vrt", level="model_checking", quick_cap=280, thorough_cap=3600,
+        rule=("Runtime level. Inputs per wire protocol {binary, binary-LE, compact}: reference encodings of all depth<=1 shapes "
+              "(+15-element containers), their depth-2 wrappers and boundary scalars as struct fields, each followed by 16 trailing "
+              "bytes; every truncation of every encoding <=40 bytes; every length/count position overwritten with "
+              "{-1,0,1,rem-1,rem+1,2^31-1}. Environment: every poll_read of the scripted stream is a choice point {deliver all "
+              "requested, deliver 1 byte, Pending (never twice in a row)} explored by the deviation-bounded explorer: ALL schedules "
+              "for messages <=9 [12] bytes (faulty inputs <=6), otherwise all schedules with <=1 [2] deviations, plus the three "
+              "extreme schedules (all, one byte per poll, Pending before every delivery). Oracle per schedule: async outcome == "
+              "sync outcome (same value, Err whenever sync is Err), bytes taken from the stream == message length (never the "
+              "trailing bytes), the future never returns Pending unless the stream did. states = (stream offset<=255, previous "
+              "answer), transitions = states x (answer, bytes requested)."),
+        assumptions=["hand-written single-thread executor with a no-op waker; the stream wakes itself when it answers Pending",
+                     "inputs on which the sync decoder panics belong to C09 and are skipped (none after the fixes)"],
+    ),
 }
 
 
